@@ -5,6 +5,22 @@ package tracer
 // C14 harness: drives the real dataTracer / tracingReader / tracingResponseWriter with scripted
 // chunkings and scripted inner readers/writers, records the trace the Collector receives and
 // prints the body events in the canonical form C14_Model.sx_event prints.
+//
+// The caller's memory.  The Coq model's state holds VALUES; the Go code only implements that if
+// it copies whatever it keeps from the slice it is handed (io.Reader / io.Writer contract: the
+// callee must not retain p, and must not write to it beyond what Read itself delivers).  So the
+// scripted drivers behave like the real callers do (io.Copy, bufio, http bodies, the http2
+// framer): every slice handed to the tracer is a window of ONE long-lived array (verifC14Arena)
+// with spare capacity behind it, and every script is run under two disciplines:
+//   reuse       the same window position for every call; the whole array is scribbled over
+//               between calls, so anything retained from an earlier call turns into garbage and an
+//               append into a retained slice lands in the bytes of the call in progress;
+//   accumulate  consecutive windows (io.ReadAll / bufio style), earlier data left in place, so a
+//               late overwrite of bytes the application still holds is seen.
+// After EVERY call (Read, Write, trace, Close) the whole array is compared with the harness's
+// private image of it (built from copies taken before the call): the bytes the application sees
+// are the bytes the inner reader produced / the caller wrote, nothing else in its memory moved.
+// The results of the two disciplines must be identical.
 
 import (
 	"bytes"
@@ -77,6 +93,91 @@ func (m *verifC14Meter) exceeded() bool {
 }
 
 var verifC14AllocErr = "allocation-out-of-proportion-to-bytes-seen"
+
+// ---- the caller's memory ----
+
+type verifC14Arena struct {
+	mem        []byte // the caller's long-lived array
+	want       []byte // private image: what mem must hold
+	accumulate bool
+	w          int // accumulate: where the next window starts
+	gen        int
+}
+
+const verifC14ArenaLead = 3 // bytes in front of the first window
+
+func verifC14NewArena(maxWindow int, accumulate bool) *verifC14Arena {
+	n := verifC14ArenaLead + maxWindow + 61
+	if accumulate {
+		n += 2*maxWindow + 32
+	}
+	a := &verifC14Arena{mem: make([]byte, n), want: make([]byte, n), accumulate: accumulate, w: verifC14ArenaLead}
+	a.scribble()
+	return a
+}
+
+// scribble overwrites the whole array (and the image) with a pattern that differs from call to call
+func (a *verifC14Arena) scribble() {
+	a.gen++
+	for i := range a.mem {
+		a.mem[i] = byte(0xA5 ^ (a.gen * 29) ^ (i * 13))
+	}
+	copy(a.want, a.mem)
+}
+
+// window returns the next slice the caller hands out: k bytes long, its capacity reaching to the
+// end of the array.  What earlier calls left in the array is scribbled over (reuse), or kept until
+// the array is full (accumulate).
+func (a *verifC14Arena) window(k int) []byte {
+	if !a.accumulate {
+		a.scribble()
+		return a.mem[verifC14ArenaLead : verifC14ArenaLead+k]
+	}
+	if a.w+k+16 > len(a.mem) {
+		a.scribble() // bufio slides its data down; here: start over
+		a.w = verifC14ArenaLead
+	}
+	return a.mem[a.w : a.w+k]
+}
+
+// expect records in the image what the harness (as caller or as inner reader) put into win
+func (a *verifC14Arena) expect(win []byte, content []byte) {
+	off := cap(a.mem) - cap(win)
+	copy(a.want[off:off+len(win)], content)
+}
+
+// consumed: the application keeps the first n bytes of the last window (accumulate)
+func (a *verifC14Arena) consumed(n int) {
+	if a.accumulate {
+		a.w += n
+	}
+}
+
+func (a *verifC14Arena) intact() bool { return bytes.Equal(a.mem, a.want) }
+
+const verifC14MemErr = "tracer-wrote-into-the-callers-memory"
+
+func verifC14Text(v vsx) string {
+	var sb strings.Builder
+	v.print(&sb)
+	return sb.String()
+}
+
+// verifC14Both runs a script under both buffer disciplines; the result must not depend on it
+func verifC14Both(run func(accumulate bool) vsx) vsx {
+	if verifC14Tripped {
+		return vErr(verifC14AllocErr)
+	}
+	r1 := run(false)
+	if verifC14Tripped {
+		return r1
+	}
+	r2 := run(true)
+	if verifC14Text(r1) != verifC14Text(r2) {
+		return vL(vS("err"), vS("result-depends-on-how-the-caller-reuses-its-buffers"), r1, r2)
+	}
+	return r1
+}
 
 type verifC14Collector struct{ traces []Trace }
 
@@ -169,9 +270,10 @@ func verifC14Decompressor(kind int64, name string) connect.Decompressor {
 
 // (req stream deckind name table chunks) -> (events)
 func verifC14Raw(args []vsx) vsx {
-	if verifC14Tripped {
-		return vErr(verifC14AllocErr)
-	}
+	return verifC14Both(func(accumulate bool) vsx { return verifC14RawRun(args, accumulate) })
+}
+
+func verifC14RawRun(args []vsx, accumulate bool) vsx {
 	coll := &verifC14Collector{}
 	bld := verifC14Builder(coll)
 	isReq := args[0].boolean()
@@ -182,14 +284,26 @@ func verifC14Raw(args []vsx) vsx {
 		builder:          bld,
 	}
 	var meter verifC14Meter
+	maxWin := 0
 	for _, ch := range args[5].l {
-		// the tracer gets its own copy, surrounded by bytes it must not look at
-		buf := append(append([]byte{0xEE, 0xEE}, ch.b...), 0xEE, 0xEE, 0xEE, 0xEE, 0xEE, 0xEE)
-		meter.around(len(ch.b), func() { tr.trace(buf[2 : 2+len(ch.b)]) })
+		maxWin = max(maxWin, len(ch.b))
+	}
+	arena := verifC14NewArena(maxWin, accumulate)
+	for _, ch := range args[5].l {
+		// the chunk sits in the caller's array, with spare capacity and foreign bytes around it
+		win := arena.window(len(ch.b))
+		copy(win, ch.b)
+		arena.expect(win, ch.b)
+		meter.around(len(ch.b), func() { tr.trace(win) })
+		if !arena.intact() {
+			return vErr(verifC14MemErr)
+		}
+		arena.consumed(len(ch.b))
 	}
 	if meter.exceeded() {
 		return vErr(verifC14AllocErr)
 	}
+	arena.scribble()
 	// what tryFinish(nil) does
 	tr.emitUnfinished()
 	if isReq {
@@ -198,6 +312,9 @@ func verifC14Raw(args []vsx) vsx {
 		bld.add(&ResponseBodyEnd{})
 	}
 	bld.build()
+	if !arena.intact() {
+		return vErr(verifC14MemErr)
+	}
 	return verifC14Events(coll)
 }
 
@@ -236,20 +353,20 @@ func (r *verifC14Inner) Close() error {
 	return r.closeErr
 }
 
-// (req headers table ops) -> ((per call: what the caller got) (events))
-func verifC14Reader(args []vsx) vsx {
-	if verifC14Tripped {
-		return vErr(verifC14AllocErr)
-	}
-	var meter verifC14Meter
-	coll := &verifC14Collector{}
-	bld := verifC14Builder(coll)
-	inner := &verifC14Inner{}
-	done := 0
-	rd := newReader(verifC14Headers(args[1]), inner, args[0].boolean(), bld, func() { done++ })
-	var results []vsx
-	for _, op := range args[3].l {
+// verifC14DriveReader runs a Read/Close script on rd (whose inner reader is inner) the way a real
+// caller does: windows of one re-used array, compared with copies taken before the call.
+func verifC14DriveReader(rd io.ReadCloser, inner *verifC14Inner, ops []vsx, meter *verifC14Meter, accumulate bool) ([]vsx, string) {
+	maxWin := 0
+	for _, op := range ops {
 		if op.l[0].i == 0 {
+			maxWin = max(maxWin, len(op.l[1].b)+int(op.l[3].i))
+		}
+	}
+	arena := verifC14NewArena(maxWin, accumulate)
+	var results []vsx
+	for _, op := range ops {
+		if op.l[0].i == 0 {
+			produced := append([]byte(nil), op.l[1].b...) // what the inner reader is going to produce
 			inner.data = op.l[1].b
 			switch op.l[2].i {
 			case 0:
@@ -259,19 +376,35 @@ func verifC14Reader(args []vsx) vsx {
 			default:
 				inner.err = errVerifC14
 			}
-			buf := make([]byte, len(inner.data)+int(op.l[3].i))
+			buf := arena.window(len(produced) + int(op.l[3].i))
+			filled := append([]byte(nil), produced...)
+			for len(filled) < len(buf) {
+				filled = append(filled, 0xEE) // the inner reader's stale bytes beyond n
+			}
+			arena.expect(buf, filled)
 			before := inner.reads
 			var n int
 			var err error
-			meter.around(len(inner.data), func() { n, err = rd.Read(buf) })
+			meter.around(len(produced), func() { n, err = rd.Read(buf) })
 			if inner.reads != before+1 || inner.gotLen != len(buf) {
-				return vErr("inner-read-not-called-once-with-the-callers-buffer")
+				return nil, "inner-read-not-called-once-with-the-callers-buffer"
 			}
 			if n < 0 || n > len(buf) {
-				return vErr("bad-n")
+				return nil, "bad-n"
 			}
+			// the bytes the application sees, now that the call has returned
 			results = append(results, vL(vB(append([]byte(nil), buf[:n]...)), verifC14IOTag(err)))
+			if !arena.intact() {
+				if n == len(produced) && !bytes.Equal(buf[:n], produced) {
+					return nil, "application-did-not-get-the-bytes-the-inner-reader-produced"
+				}
+				return nil, verifC14MemErr
+			}
+			arena.consumed(n)
 		} else {
+			if !accumulate {
+				arena.scribble()
+			}
 			inner.closeErr = nil
 			if op.l[1].boolean() {
 				inner.closeErr = errVerifC14
@@ -279,10 +412,32 @@ func verifC14Reader(args []vsx) vsx {
 			before := inner.closes
 			err := rd.Close()
 			if inner.closes != before+1 {
-				return vErr("inner-close-not-called-once")
+				return nil, "inner-close-not-called-once"
+			}
+			if !arena.intact() {
+				return nil, verifC14MemErr
 			}
 			results = append(results, vL(verifC14IOTag(err)))
 		}
+	}
+	return results, ""
+}
+
+// (req headers table ops) -> ((per call: what the caller got) (events))
+func verifC14Reader(args []vsx) vsx {
+	return verifC14Both(func(accumulate bool) vsx { return verifC14ReaderRun(args, accumulate) })
+}
+
+func verifC14ReaderRun(args []vsx, accumulate bool) vsx {
+	var meter verifC14Meter
+	coll := &verifC14Collector{}
+	bld := verifC14Builder(coll)
+	inner := &verifC14Inner{}
+	done := 0
+	rd := newReader(verifC14Headers(args[1]), inner, args[0].boolean(), bld, func() { done++ })
+	results, failure := verifC14DriveReader(rd, inner, args[3].l, &meter, accumulate)
+	if failure != "" {
+		return vErr(failure)
 	}
 	if done > 1 {
 		return vErr("when-done-called-twice")
@@ -312,19 +467,22 @@ func (w *verifC14RespWriter) Write(p []byte) (int, error) {
 	return w.n, w.err
 }
 
-// (headers table ops) -> ((per Write: n err) (events))
-func verifC14Writer(args []vsx) vsx {
-	if verifC14Tripped {
-		return vErr(verifC14AllocErr)
+// verifC14DriveWriter runs a Write script on w (whose inner writer is inner): every Write gets a
+// window of one re-used array; when the call has returned the array must be as the caller left it
+// (io.Writer: no modification of p, not even temporarily - the latter cannot be seen), and the
+// caller then overwrites it (io.Writer: the callee must not retain p).
+func verifC14DriveWriter(w io.Writer, inner *verifC14RespWriter, ops []vsx, meter *verifC14Meter, accumulate bool) ([]vsx, string) {
+	maxWin := 0
+	for _, op := range ops {
+		maxWin = max(maxWin, len(op.l[0].b))
 	}
-	var meter verifC14Meter
-	coll := &verifC14Collector{}
-	bld := verifC14Builder(coll)
-	inner := &verifC14RespWriter{hdr: verifC14Headers(args[0])}
-	tw := &tracingResponseWriter{respWriter: inner, req: verifC14Request(), builder: bld}
+	arena := verifC14NewArena(maxWin, accumulate)
 	var results []vsx
-	for _, op := range args[2].l {
-		data := append([]byte(nil), op.l[0].b...)
+	for _, op := range ops {
+		written := append([]byte(nil), op.l[0].b...)
+		data := arena.window(len(written))
+		copy(data, written)
+		arena.expect(data, written)
 		inner.n = int(op.l[1].i)
 		inner.err = nil
 		if op.l[2].boolean() {
@@ -333,11 +491,34 @@ func verifC14Writer(args []vsx) vsx {
 		before := inner.writes
 		var n int
 		var err error
-		meter.around(len(data), func() { n, err = tw.Write(data) })
-		if inner.writes != before+1 || !bytes.Equal(inner.got, op.l[0].b) || !bytes.Equal(data, op.l[0].b) {
-			return vErr("inner-write-did-not-get-exactly-the-callers-bytes")
+		meter.around(len(data), func() { n, err = w.Write(data) })
+		if inner.writes != before+1 || !bytes.Equal(inner.got, written) || !bytes.Equal(data, written) {
+			return nil, "inner-write-did-not-get-exactly-the-callers-bytes"
 		}
+		if !arena.intact() {
+			return nil, verifC14MemErr
+		}
+		arena.consumed(len(data))
 		results = append(results, vL(vInt(n), verifC14IOTag(err)))
+	}
+	arena.scribble()
+	return results, ""
+}
+
+// (headers table ops) -> ((per Write: n err) (events))
+func verifC14Writer(args []vsx) vsx {
+	return verifC14Both(func(accumulate bool) vsx { return verifC14WriterRun(args, accumulate) })
+}
+
+func verifC14WriterRun(args []vsx, accumulate bool) vsx {
+	var meter verifC14Meter
+	coll := &verifC14Collector{}
+	bld := verifC14Builder(coll)
+	inner := &verifC14RespWriter{hdr: verifC14Headers(args[0])}
+	tw := &tracingResponseWriter{respWriter: inner, req: verifC14Request(), builder: bld}
+	results, failure := verifC14DriveWriter(tw, inner, args[2].l, &meter, accumulate)
+	if failure != "" {
+		return vErr(failure)
 	}
 	if meter.exceeded() {
 		return vErr(verifC14AllocErr)
@@ -466,12 +647,13 @@ func verifC14SameHeader(a, b http.Header) bool {
 // (0 headers table ops) -> as c14.reader, the response body being read through the *http.Response
 // that TracingRoundTripper hands back; the script must end the body (EOF, error or Close).
 func verifC14RoundTrip(args []vsx) vsx {
-	if verifC14Tripped {
-		return vErr(verifC14AllocErr)
-	}
 	if args[0].boolean() {
 		return vL(vS("bad-case"))
 	}
+	return verifC14Both(func(accumulate bool) vsx { return verifC14RoundTripRun(args, accumulate) })
+}
+
+func verifC14RoundTripRun(args []vsx, accumulate bool) vsx {
 	var meter verifC14Meter
 	coll := &verifC14Collector{}
 	inner := &verifC14Inner{}
@@ -488,40 +670,9 @@ func verifC14RoundTrip(args []vsx) vsx {
 	if err != nil || got != resp {
 		return vErr("response-not-passed-through")
 	}
-	rd := got.Body
-	var results []vsx
-	for _, op := range args[3].l {
-		if op.l[0].i == 0 {
-			inner.data = op.l[1].b
-			switch op.l[2].i {
-			case 0:
-				inner.err = nil
-			case 1:
-				inner.err = io.EOF
-			default:
-				inner.err = errVerifC14
-			}
-			buf := make([]byte, len(inner.data)+int(op.l[3].i))
-			before := inner.reads
-			var n int
-			var err error
-			meter.around(len(inner.data), func() { n, err = rd.Read(buf) })
-			if inner.reads != before+1 || inner.gotLen != len(buf) || n < 0 || n > len(buf) {
-				return vErr("inner-read-not-called-once-with-the-callers-buffer")
-			}
-			results = append(results, vL(vB(append([]byte(nil), buf[:n]...)), verifC14IOTag(err)))
-		} else {
-			inner.closeErr = nil
-			if op.l[1].boolean() {
-				inner.closeErr = errVerifC14
-			}
-			before := inner.closes
-			err := rd.Close()
-			if inner.closes != before+1 {
-				return vErr("inner-close-not-called-once")
-			}
-			results = append(results, vL(verifC14IOTag(err)))
-		}
+	results, failure := verifC14DriveReader(got.Body, inner, args[3].l, &meter, accumulate)
+	if failure != "" {
+		return vErr(failure)
 	}
 	if got.StatusCode != http.StatusOK || !verifC14SameHeader(got.Header, hdrCopy) || !verifC14SameHeader(got.Trailer, trailerCopy) {
 		return vErr("status-headers-or-trailers-altered")
@@ -535,9 +686,10 @@ func verifC14RoundTrip(args []vsx) vsx {
 // (headers table ops) -> as c14.writer, the handler writing through the ResponseWriter that
 // TracingHandler passes to it (headers set before the first Write, a trailer after the last).
 func verifC14Handler(args []vsx) vsx {
-	if verifC14Tripped {
-		return vErr(verifC14AllocErr)
-	}
+	return verifC14Both(func(accumulate bool) vsx { return verifC14HandlerRun(args, accumulate) })
+}
+
+func verifC14HandlerRun(args []vsx, accumulate bool) vsx {
 	var meter verifC14Meter
 	coll := &verifC14Collector{}
 	inner := &verifC14RespWriter{hdr: http.Header{}}
@@ -548,22 +700,9 @@ func verifC14Handler(args []vsx) vsx {
 			w.Header()[name] = vals
 		}
 		w.Header().Set("Trailer", "X-Verif-Trailer")
-		for _, op := range args[2].l {
-			data := append([]byte(nil), op.l[0].b...)
-			inner.n = int(op.l[1].i)
-			inner.err = nil
-			if op.l[2].boolean() {
-				inner.err = errVerifC14
-			}
-			before := inner.writes
-			var n int
-			var err error
-			meter.around(len(data), func() { n, err = w.Write(data) })
-			if inner.writes != before+1 || !bytes.Equal(inner.got, op.l[0].b) || !bytes.Equal(data, op.l[0].b) {
-				failure = "inner-write-did-not-get-exactly-the-callers-bytes"
-				return
-			}
-			results = append(results, vL(vInt(n), verifC14IOTag(err)))
+		results, failure = verifC14DriveWriter(w, inner, args[2].l, &meter, accumulate)
+		if failure != "" {
+			return
 		}
 		w.Header().Set("X-Verif-Trailer", "t")
 	})
